@@ -82,7 +82,7 @@ func (l *serverLog) feed(rd io.Reader, passthrough io.Writer) {
 			l.in, l.cur = true, []string{ln}
 		} else if l.in {
 			// stack lines: function lines, tab-indented file lines, "goroutine N [running]:", "created by"
-			if ln == "" || strings.HasPrefix(ln, "\t") || strings.HasPrefix(ln, "goroutine ") || strings.HasPrefix(ln, "created by") || strings.Contains(ln, "(") || strings.HasPrefix(ln, "panic") {
+			if ln == "" || strings.HasPrefix(ln, "\t") || strings.HasPrefix(ln, "goroutine ") || strings.HasPrefix(ln, "created by") || strings.Contains(ln, "(") || strings.HasPrefix(ln, "panic") || strings.HasPrefix(ln, "[signal") {
 				l.cur = append(l.cur, ln)
 			} else {
 				l.panics = append(l.panics, strings.Join(l.cur, "\n"))
